@@ -114,7 +114,7 @@ int32 model_encryptRecord(ssl_t *ssl, int32 type, int32 hsMsgType, int32 message
     P(C08_written_bytes_equal_announced_size,              IMPLIES(REACHED_EXTENSIONS, __CPROVER_same_object(gh.c_at_encrypt, g_outbuf) && \
                                                                    (unsigned long) (gh.c_at_encrypt - (gh.c_after_hdr - 9)) == gh.msgSize)) \
     P(C08_success_advances_output_inside_buffer,           IMPLIES(RET == MATRIXSSL_SUCCESS, __CPROVER_same_object(g_out.end, g_outbuf) && __CPROVER_POINTER_OFFSET(g_out.end) <= OUTSZ)) \
-    P(C08_full_buffer_reports_required_size,               IMPLIES(RET == SSL_FULL, g_reqLen == gh.msgSize && gh.enc == 0))
+    P(C08_full_buffer_reports_required_size,               IMPLIES(RET == SSL_FULL && gh.enc == 0, g_reqLen == gh.msgSize))
 
 int32_t matrixSslEncodeClientHello(ssl_t *ssl, sslBuf_t *out, const psCipher16_t cipherSpecs[], uint8_t cipherSpecLen,
     uint32 *requiredLen, tlsExtension_t *userExt, sslSessOpts_t *options)
